@@ -30,8 +30,8 @@ def shard_setup(tier):
 
 ID = "C13"
 LEVEL = "exploration"
-RULE = ("a case is (payload size/kind, class zlib|gzip, level 1..9, write chunking, three readers: joblib-written "
-        "BytesIO, joblib-written real file, stdlib-written stream) each driven by a seeded sequence of <= 40 "
+RULE = ("a case is (payload size/kind, class zlib|gzip, level 1..9, write chunking, four readers: joblib-written "
+        "BytesIO, joblib-written real file, stdlib-written stream, stdlib-written stream followed by trailing bytes) each driven by a seeded sequence of <= 40 "
         "operations read(n)/read()/readinto/readline/tell/seek(whence 0,1,2); distinct_nontrivial counts distinct "
         "(payload, class, level, reader, operation-sequence) tuples in which at least one operation crossed "
         "an 8192-byte decompression block boundary or hit EOF")
@@ -153,7 +153,9 @@ def run_case(case, ctx):
                        else gzip.compress(data, case["level"]))
         readers = [("joblib-bytesio", lambda: Cls(io.BytesIO(produced["bytesio"]), "rb")),
                    ("joblib-path", lambda: Cls(path, "rb")),
-                   ("stdlib-bytesio", lambda: Cls(io.BytesIO(stdlib_comp), "rb"))]
+                   ("stdlib-bytesio", lambda: Cls(io.BytesIO(stdlib_comp), "rb")),
+                   # data after the end-of-stream marker is not part of the stream
+                   ("stdlib-bytesio+trailing-bytes", lambda: Cls(io.BytesIO(stdlib_comp + rng.choice([b"\x00", b"junk", bytes(9000)])), "rb"))]
         for rname, opener in readers:
             ops = gen_ops(rng, len(data), case["L"])
             f = opener()
